@@ -322,6 +322,84 @@ def chain_traces_nd(rng, quick):
     return traces
 
 
+def chain_traces_nonlattice(rng, quick):
+    """chains on grids whose own cell boundary is not the arithmetic mid-point (probability-step grid) and on geometric
+    grids: the target law is the mass of the cells the GRID defines (grid.middle), for every sampling method"""
+    import rpylib.distribution.univariate.uniform as um
+    import rpylib.distribution.variate.table as tm
+    from harness.models import levy_models
+    from rpylib.distribution.sampling import SamplingMethod
+    from rpylib.grid.spatial import CTMCGridGeometric, CTMCGridProbabilityStep
+    from rpylib.process.markovchain.markovchain import MarkovChainProcess
+    scripted, srandom = ScriptedUniform(), ScriptedRandom()
+    um.npr = scripted
+    real_random = tm.random
+    tm.random = srandom
+    lm = levy_models()
+    traces = []
+    makers = [("probstep", lambda: CTMCGridProbabilityStep(h=0.04, model=lm[rng.choice(["hem", "merton"])], minimum_probability_step=0.15)),
+              ("geombounds", lambda: CTMCGridGeometric.create_with_bounds(h=0.05, truncations=(-0.8, 1.1), dimension=1, nb_of_points_on_each_side=3))]
+    try:
+        for kind, make in makers:
+            for lvl in (0, 1):
+                grid = make()
+                for _ in range(lvl):
+                    grid.refine()
+                a = [float(x) for x in grid.axes[0]]
+                mids = [float(grid.middle(x, y)) for x, y in zip(a, a[1:])]
+                pts = set(a) | set(mids)
+                for x, y in zip(a, a[1:]):
+                    pts |= {0.5 * (x + y), 0.75 * x + 0.25 * y, 0.25 * x + 0.75 * y}
+                pts = sorted(pts)
+                pts = [pts[0]] + [q for p_, q in zip(pts, pts[1:]) if q - p_ > 1e-9]
+                atoms = [(0.5 * (x + y), rng.randint(1, 4)) for x, y in zip(pts, pts[1:])]
+                atoms = [(a[0] - 0.01, 2)] + atoms + [(a[-1] + 0.01, 3)]
+                origin = int(grid.origin_coordinate.value)
+                K = len(a)
+                W = []
+                for j in range(K):
+                    if j == origin:
+                        W.append(0)
+                        continue
+                    lo = a[0] if j == 0 else mids[j - 1]
+                    hi = a[-1] if j == K - 1 else mids[j]
+                    W.append(sum(w for (x, w) in atoms if lo < x < hi))
+                S = sum(W)
+                for method in SamplingMethod:
+                    if method == SamplingMethod.BINARYSEARCHTREEADAPTED:
+                        continue
+                    N = K * S * 2 if method in (SamplingMethod.ALIAS, SamplingMethod.TABLE) else 4 * S
+                    us = lattice(N)
+                    hdr = {"method": f"chain1d:{kind}:l{lvl}:" + method.name, "W": W, "N": N, "slack": 0, "shape": [K, origin, lvl]}
+                    ev = []
+                    try:
+                        import copy
+                        model = atomic.AtomLevyModel(atoms, sigma=0.0, unit=None)
+                        smp = MarkovChainProcess(model=model, method=method, grid=copy.deepcopy(grid)).sampling
+
+                        def idx(inc):
+                            inc = int(np.ravel(inc)[0]) if not isinstance(inc, (int, np.integer)) else int(inc)
+                            j = origin + inc
+                            return j + 1 if 0 <= j < K else 0
+                        if method == SamplingMethod.TABLE:
+                            M = max(4, (2 * N) // 256 + 1)
+                            ints = [(((2 * j + 1) * (1 << 24)) // (2 * M)) * 256 + lo for lo in range(256) for j in range(M)]
+                            hdr["N"], hdr["slack"] = len(ints), 2 * K + 2
+                            srandom.queue = list(ints)
+                            out = smp.sample(size=len(ints))
+                            ev.append({"e": "Sweep", "is": list(range(len(ints))), "ks": [idx(v) for v in out]})
+                        else:
+                            scripted.queue = list(us)
+                            out = smp.sample(size=N)
+                            ev.append({"e": "Sweep", "is": list(range(N)), "ks": [idx(v) for v in out]})
+                    except Exception as ex:
+                        ev.append({"e": "Raise", "what": type(ex).__name__ + ": " + str(ex)[:80]})
+                    traces.append({"tid": f"g{len(traces)}", "hdr": hdr, "ev": ev})
+    finally:
+        tm.random = real_random
+    return traces
+
+
 def normalise(traces):
     """sweeps are sent in lattice order (ks[i] = state of lattice point i); a sweep that is not a permutation of the
     lattice is sent as it is with its points (the specification then rejects its length / content)"""
@@ -343,7 +421,7 @@ def main():
     out, tier, seed = sys.argv[1], sys.argv[2], int(sys.argv[3])
     quick = tier == "quick"
     rng = random.Random(seed)
-    traces = normalise(vec_traces(rng, quick) + chain_traces_1d(rng, quick) + chain_traces_nd(rng, quick))
+    traces = normalise(vec_traces(rng, quick) + chain_traces_1d(rng, quick) + chain_traces_nd(rng, quick) + chain_traces_nonlattice(rng, quick))
     with open(out, "w") as f:
         for t in traces:
             f.write(json.dumps(t, separators=(",", ":")) + "\n")
